@@ -126,8 +126,16 @@ func (r *rewriter) rewriteStmt(s ast.Stmt) []ast.Stmt {
 		r.rewriteBlock(v)
 		return []ast.Stmt{v}
 	case *ast.IfStmt:
-		if v.Init != nil && hasRecv(v.Init) || hasRecv(v.Cond) {
-			fail("%s: channel receive in an if header is not supported", r.label(v.Pos(), "if"))
+		if hasRecv(v.Cond) {
+			fail("%s: channel receive in an if condition is not supported", r.label(v.Pos(), "if"))
+		}
+		if v.Init != nil && hasRecv(v.Init) {
+			// `if x := <-ch; cond { ... }` becomes `{ gate; x := <-ch; if cond { ... } }`: same scope for x, the receive is
+			// a statement of its own and gets its gate
+			init := v.Init
+			v.Init = nil
+			inner := r.rewriteStmt(v)
+			return []ast.Stmt{&ast.BlockStmt{List: append(r.rewriteStmt(init), inner...)}}
 		}
 		r.rewriteBlock(v.Body)
 		if v.Else != nil {
